@@ -623,7 +623,9 @@ func (tr *FnTrans) existingObjectFacts(hterm, addr string, t types.Type) {
 		if tr.sink == nil {
 			tr.baseDone[key] = true
 		}
-		tr.assume("true", fmt.Sprintf("(< %s %s)", root(fmt.Sprintf("(select %s %s)", b, addr)), ac), "pointer in memory refers to an object that already existed")
+		// only cells of objects that existed when this heap version came into being: the cells of an
+		// object a pure callee allocates later live in the same array and may point to newer objects
+		tr.assume("true", fmt.Sprintf("(=> (< (rootloc %s) %s) (< %s %s))", addr, ac, root(fmt.Sprintf("(select %s %s)", b, addr)), ac), "pointer in memory refers to an object that already existed")
 	}
 }
 
